@@ -43,11 +43,11 @@ def hexVal (c : Nat) : Option Nat :=
   if 48 ≤ c ∧ c ≤ 57 then some (c - 48) else if 97 ≤ c ∧ c ≤ 102 then some (c - 87)
   else if 65 ≤ c ∧ c ≤ 70 then some (c - 55) else none
 
-/-- `u8::from_str_radix(pair, 16)`: two hex digits, or a leading `+` and one hex digit -/
+/-- one pair of `read_hex_bytes`: both characters must be ASCII hex digits (the assertion in front
+    of `u8::from_str_radix(pair, 16)`, which alone would also take a leading `+`) -/
 def hexPair (a b : Nat) : Option Nat :=
   match hexVal a, hexVal b with
   | some x, some y => some (x * 16 + y)
-  | none, some y => if a = 43 then some y else none
   | _, _ => none
 
 def hexPairs : List Nat → Option Bytes
